@@ -1382,6 +1382,10 @@ def target_worker_thread(host: str, port: int, shared_aconf: AuditConf) -> Tuple
     except Exception:
         ret = -1
         string_output = "An exception occurred while scanning %s:%d:\n%s" % (host, port, str(traceback.format_exc()))
+    finally:
+        # This pool thread may be re-used for another target.  Delete its local copy of the algorithm databases so that findings recorded for this target (Terrapin warnings, key/modulus size notes, etc.) do not leak into the next target's results.
+        SSH1_KexDB.thread_exit()
+        SSH2_KexDB.thread_exit()
 
     return ret, string_output
 
